@@ -5,11 +5,17 @@ abstraction of implementation values back, exact structural keys, the real
 lexer, loading the TLC-exported universe, and trace validation.
 
 An abstract value is the JSON form of a Val record:
-{"k": kind, "n": [num, den], "s": [code points / digits / limbs],
+{"k": kind, "n": [num, den], "s": [code points / limbs / date fields],
  "items": [...], "vals": [...]}.
+A date is s = [year, month, day, hour, minute, second, microsecond] (mk still
+accepts the former 14 code points 'YYYYMMDDHHMMSS').  A decimal that is neither
+a small dyadic rational nor integral >= 10^8 is "fine": n = [sign, -e],
+s = limbs of the odd numerator M, value = sign * M / 2^e (only produced when
+asked for with fine=True / rich=True).
 """
 import datetime
 import json
+import math
 import os
 import tempfile
 from decimal import Decimal
@@ -34,6 +40,9 @@ class Unencodable(Exception):
 
 
 def mk(k, n=None, s=None, items=None, vals=None):
+    if k == "date" and s is not None and len(s) == 14 and all(48 <= c <= 57 for c in s):
+        t = "".join(chr(c) for c in s)      # the former encoding: the 14 digits of the stamp
+        s = [int(t[0:4]), int(t[4:6]), int(t[6:8]), int(t[8:10]), int(t[10:12]), int(t[12:14]), 0]
     return {"k": k, "n": list(n) if n else [0, 1], "s": list(s) if s else [],
             "items": list(items) if items else [], "vals": list(vals) if vals else []}
 
@@ -78,7 +87,11 @@ def a_int(i):
     raise Unencodable(f"int {i} between the small and the big range")
 
 
-def a_dec(x):
+FINE_MAX_EXP = 1100
+
+
+def a_dec(x, fine=False):
+    """fine=True: every other finite non-integral double as sign * M / 2^e (exact)"""
     if x != x or x in (float("inf"), float("-inf")):
         raise Unencodable("inf/nan")
     if x == 0:
@@ -88,7 +101,15 @@ def a_dec(x):
         return mk("dec", [f.numerator, f.denominator])
     if f.denominator == 1 and abs(f.numerator) >= BIG_MIN:
         return mk("dec", [1 if f > 0 else -1, 0], limbs(abs(f.numerator)))
+    if fine and f.denominator > 1:
+        e = f.denominator.bit_length() - 1          # the denominator of a double is a power of two
+        if e <= FINE_MAX_EXP and (e > 10 or abs(f.numerator) > SMALL_MAX):
+            return mk("dec", [1 if f > 0 else -1, -e], limbs(abs(f.numerator)))
     raise Unencodable(f"decimal {x!r} outside the exact encodings")
+
+
+def is_fine(a):
+    return a["k"] == "dec" and a["n"][1] < 0 and a["n"][0] != 0
 
 
 def a_str(s):
@@ -96,7 +117,12 @@ def a_str(s):
 
 
 def a_date(d):
-    return mk("date", s=cps(d.strftime("%Y%m%d%H%M%S")))
+    return mk("date", s=[d.year, d.month, d.day, d.hour, d.minute, d.second, d.microsecond])
+
+
+def stamp(s):
+    """the 14 digits a date is written with (year padded to four digits)"""
+    return "%04d%02d%02d%02d%02d%02d" % tuple(s[:6])
 
 
 def a_pat(s):
@@ -125,6 +151,8 @@ def num_of(a):
     n, d = a["n"]
     if d == 0:
         v = n * unlimbs(a["s"])
+    elif d < 0 and n != 0:
+        v = Fraction(n * unlimbs(a["s"]), 2 ** -d)
     elif a["k"] == "int":
         v = n
     else:
@@ -155,8 +183,10 @@ def akey(a):
         return ("int", num_of(a))
     if k == "dec":
         return ("dec", float_of(a).hex())
-    if k in ("str", "date", "pat"):
+    if k in ("str", "pat"):
         return (k, text(a["s"]))
+    if k == "date":
+        return ("date", tuple(a["s"]))
     if k == "ref":
         return ("ref", a["n"][0])
     if k == "list":
@@ -185,7 +215,8 @@ def vkey(v, refs=None):
     if isinstance(v, V.ValueString):
         return ("str", v.value)
     if isinstance(v, V.ValueDate):
-        return ("date", v.value.strftime("%Y%m%d%H%M%S"))
+        d = v.value
+        return ("date", (d.year, d.month, d.day, d.hour, d.minute, d.second, d.microsecond))
     if isinstance(v, V.ValuePattern):
         return ("pat", v.value)
     if isinstance(v, V.ValueList):
@@ -201,9 +232,10 @@ def vkey(v, refs=None):
     return ("other", type(v).__name__, id(v))
 
 
-def to_abs(v, refs=None):
+def to_abs(v, refs=None, fine=False):
     """implementation value -> abstract value (raises Unencodable outside the
-    exact encodings); set / map entries in a deterministic order"""
+    exact encodings; fine=True: every finite decimal is encodable); set / map
+    entries in a deterministic order"""
     if isinstance(v, V.ValueNull):
         return a_null()
     if isinstance(v, V.ValueBoolean):
@@ -215,7 +247,7 @@ def to_abs(v, refs=None):
     if isinstance(v, V.ValueDecimal):
         if not isinstance(v.value, float):
             raise Unencodable("decimal value holding " + type(v.value).__name__)
-        return a_dec(v.value)
+        return a_dec(v.value, fine)
     if isinstance(v, V.ValueString):
         return a_str(v.value)
     if isinstance(v, V.ValueDate):
@@ -223,13 +255,13 @@ def to_abs(v, refs=None):
     if isinstance(v, V.ValuePattern):
         return a_pat(v.value)
     if isinstance(v, V.ValueList):
-        return a_list([to_abs(x, refs) for x in v.value])
+        return a_list([to_abs(x, refs, fine) for x in v.value])
     if isinstance(v, V.ValueSet):
-        its = [to_abs(x, refs) for x in v.value]
+        its = [to_abs(x, refs, fine) for x in v.value]
         its.sort(key=lambda a: repr(akey_sortable(a)))
         return a_set(its)
     if isinstance(v, V.ValueMap):
-        ent = [(to_abs(k, refs), to_abs(x, refs)) for k, x in v.value.items()]
+        ent = [(to_abs(k, refs, fine), to_abs(x, refs, fine)) for k, x in v.value.items()]
         ent.sort(key=lambda e: repr(akey_sortable(e[0])))
         return a_map([e[0] for e in ent], [e[1] for e in ent])
     if refs:
@@ -268,7 +300,7 @@ def build(a, refs=None):
     if k == "str":
         return V.ValueString(text(a["s"]))
     if k == "date":
-        return V.ValueDate(datetime.datetime.strptime(text(a["s"]), "%Y%m%d%H%M%S"))
+        return V.ValueDate(datetime.datetime(*a["s"]))
     if k == "pat":
         return V.ValuePattern(text(a["s"]))
     if k == "ref":
@@ -301,6 +333,10 @@ def dec_text(a):
     """exact decimal numeral of an abstract decimal (always with a fraction)"""
     if is_negzero(a):
         return "-0.0"
+    if is_fine(a):
+        # the shortest numeral that reads back as this double, written positionally
+        t = format(Decimal(repr(float_of(a))), "f")
+        return t if "." in t else t + ".0"
     v = num_of(a)
     f = Fraction(v)
     s = format(Decimal(f.numerator) / Decimal(f.denominator), "f")
@@ -327,7 +363,13 @@ def literal(a):
     if k == "str":
         return quote(text(a["s"]))
     if k == "date":
-        return "date('" + text(a["s"]) + "')"
+        us = a["s"][6]
+        if us == 0:
+            return "date('" + stamp(a["s"]) + "')"
+        if us % 1000 == 0:
+            # programs reach sub-second dates through date arithmetic (resolution: one millisecond)
+            return "(date('" + stamp(a["s"]) + "') + " + format(Decimal(repr(us / 86400e6)), "f") + ")"
+        return "date_us('" + stamp(a["s"]) + "', " + str(us) + ")"       # no program form: see evaluable
     if k == "pat":
         p = text(a["s"])
         if "//" in p or p.startswith("/") or p.endswith("/") or p == "":
@@ -351,6 +393,15 @@ def literal(a):
         return "<<< " + ", ".join(literal(x) + " => " + literal(y)
                                   for x, y in zip(a["items"], a["vals"])) + " >>>"
     raise ValueError(k)
+
+
+def evaluable(a):
+    """literal(a) is a program: every date inside has whole seconds, or whole
+    milliseconds and a year the implementation's day numbers cover (date
+    arithmetic counts from 1900)"""
+    if a["k"] == "date":
+        return a["s"][6] == 0 or (a["s"][6] % 1000 == 0 and a["s"][0] >= 1900)
+    return all(evaluable(x) for x in a["items"]) and all(evaluable(x) for x in a["vals"])
 
 
 def is_data(a):
@@ -482,13 +533,15 @@ def load_universe(run, cfg, label, res=None):
     for i, r in uv.items():
         u["v"][i] = r["v"]
         u["os"][i] = r["os"]
-    for tag, fields in (("EQ", ("eq",)), ("LT", ("lt", "st", "srt")), ("TX", ("txt", "toks"))):
+    for tag, fields in (("EQ", ("eq", "ro")), ("LT", ("lt", "st", "srt")), ("TX", ("txt", "toks"))):
         recs = {r["i"]: r for r in res.records(tag)}
         if recs:
             if sorted(recs) != list(range(1, n + 1)):
                 raise MachineryError(f"ValLaws {tag} export incomplete")
             for f in fields:
-                if f in ("eq", "lt", "st"):      # rows: 1-based in both indices
+                if f not in recs[1]:
+                    continue
+                if f in ("eq", "ro", "lt", "st"):      # rows: 1-based in both indices
                     u[f] = [None] + [[None] + recs[i][f] for i in range(1, n + 1)]
                 else:
                     u[f] = [None] + [recs[i][f] for i in range(1, n + 1)]
@@ -550,8 +603,66 @@ DATES = ["20240101000000", "20240101000001", "19991231235959", "20240229120000",
          "20231231235959"]
 
 
-def gen_scalar(rng, kind=None):
+# the wider pools (rich=True; C06 / C07): characters that compose (e + U+0301 against U+00E9), a
+# non-BMP and a replacement character, CR, further digits (text order against numeric order);
+# dates below the year 1000 (the host writes them with fewer digits), dates inside one second
+# (micro- and millisecond steps), the ends of the calendar; decimals one and two ulps apart
+ALPHA_RICH = ALPHA + ["e", "\u0301", "\u00e8", "\ufffd", "\U0001F600", "\r", "0", "1", "2", "9", "Z", "\x7f"]
+DATES_RICH = [(999, 12, 31, 0, 0, 0, 0), (999, 12, 31, 23, 59, 59, 999999), (1000, 1, 1, 0, 0, 0, 0),
+              (1, 1, 1, 0, 0, 0, 0), (9, 9, 9, 9, 9, 9, 9), (9999, 12, 31, 23, 59, 59, 999999),
+              (2000, 6, 1, 12, 48, 36, 0), (2000, 6, 1, 12, 48, 36, 444000), (2000, 6, 1, 12, 48, 36, 444001),
+              (2000, 6, 1, 12, 48, 37, 0), (2024, 1, 1, 0, 0, 0, 1), (2024, 1, 1, 0, 0, 0, 999000),
+              (2023, 12, 31, 23, 59, 59, 999999), (1899, 12, 31, 0, 0, 0, 0), (2024, 2, 29, 12, 0, 0, 500000)]
+DEC_BASES = [0.1, 0.2, 0.3, 0.1 + 0.2, 1.0, 1 / 3, 2.5, 0.7, 1e-5, 123456.789, 5000000.5, 1e15 + 0.3, 4.35, 100.0,
+             2.0 ** 53, 0.5, 1e-9, 33.333333333333336]
+
+
+def step_ulps(x, k):
+    """the double k representable steps above (below) x"""
+    for _ in range(abs(k)):
+        x = math.nextafter(x, math.inf if k > 0 else -math.inf)
+    return x
+
+
+def date_shift(rng, s):
+    """a date close to s: one microsecond, millisecond, second, day or year away"""
+    d = datetime.datetime(*s)
+    delta = rng.choice([datetime.timedelta(microseconds=1), datetime.timedelta(milliseconds=1),
+                        datetime.timedelta(milliseconds=444), datetime.timedelta(seconds=1),
+                        datetime.timedelta(days=1), datetime.timedelta(days=365)])
+    try:
+        d = d + delta if rng.random() < 0.5 else d - delta
+    except OverflowError:
+        pass
+    return a_date(d)
+
+
+def gen_rich(rng, kind):
+    """a scalar of the wider pools (None when the kind has none)"""
+    if kind == "dec":
+        x = rng.choice(DEC_BASES) * rng.choice([1, 1, -1])
+        x = step_ulps(x, rng.choice([0, 0, 1, -1, 2, -2]))
+        try:
+            return a_dec(x, fine=True)
+        except Unencodable:
+            return None
+    if kind == "date":
+        if rng.random() < 0.6:
+            return mk("date", s=list(rng.choice(DATES_RICH)))
+        base = mk("date", s=cps(rng.choice(DATES)))
+        return date_shift(rng, base["s"])
+    if kind == "str":
+        n = rng.choice([1, 1, 2, 2, 3])
+        return a_str("".join(rng.choice(ALPHA_RICH) for _ in range(n)))
+    return None
+
+
+def gen_scalar(rng, kind=None, rich=False):
     kind = kind or rng.choice(["null", "bool", "int", "int", "dec", "dec", "str", "str", "date", "pat"])
+    if rich and kind in ("dec", "date", "str") and rng.random() < 0.4:
+        r = gen_rich(rng, kind)
+        if r is not None:
+            return r
     if kind == "null":
         return a_null()
     if kind == "bool":
@@ -638,18 +749,30 @@ def equal_variant(rng, a):
     return a
 
 
-def mutate(rng, a, elem=None):
-    """a value close to a (usually not Equal)"""
+def mutate(rng, a, elem=None, rich=False):
+    """a value close to a (usually not Equal); rich: decimals by single ulps,
+    dates by micro- / milliseconds, strings over the wider alphabet"""
     elem = elem or gen_scalar
     k = a["k"]
+    if rich and k == "dec" and rng.random() < 0.6:
+        try:
+            return a_dec(step_ulps(float_of(a), rng.choice([1, -1, 2, -2])), fine=True)
+        except Unencodable:
+            return a
+    if rich and k == "date" and rng.random() < 0.7:
+        return date_shift(rng, a["s"])
+    if rich and k == "str" and rng.random() < 0.4:
+        s0 = text(a["s"])
+        c = rng.choice(ALPHA_RICH)
+        return a_str(rng.choice([s0 + c, c + s0, s0[:-1] + c]))
     if k in ("list", "set", "map") and a["items"] and rng.random() < 0.8:
         i = rng.randrange(len(a["items"]))
         b = json.loads(json.dumps(a))
         r = rng.random()
         if r < 0.5:
-            b["items"][i] = mutate(rng, a["items"][i], elem)
+            b["items"][i] = mutate(rng, a["items"][i], elem, rich)
         elif r < 0.7 and k == "map":
-            b["vals"][i] = mutate(rng, a["vals"][i], elem)
+            b["vals"][i] = mutate(rng, a["vals"][i], elem, rich)
         elif r < 0.85:
             del b["items"][i]
             if k == "map":
